@@ -5,7 +5,7 @@
    Evaluated by vm_compute; definitions only. *)
 From Coq Require Import ZArith List Bool.
 From TV Require Import Model.KnnOrder.
-From TV Require Export Model.SqlSpec Model.SortSpec Model.SortQuery Model.SortImpl.
+From TV Require Export Model.SqlSpec Model.SortSpec Model.SortQuery Model.SortImpl Model.SortGroup.
 Import ListNotations.
 Open Scope Z_scope.
 
@@ -19,7 +19,11 @@ Inductive qout := QRows (rows : list row) | QIdx (idx : list Z) | QErr | QPanic.
    Same = on the table of the nearest preceding Single of the same file *)
 Inductive case :=
 | Single (ncols : nat) (t : table) (q : query) (o : qout)
-| Same (q : query) (o : qout).
+| Same (q : query) (o : qout)
+(* SELECT g.., COUNT( * ) AS n FROM t [WHERE id > w] GROUP BY g.. ORDER BY .. [LIMIT l] [OFFSET o]
+   (Model/SortGroup.v); GSame = on the table in force *)
+| Group (ncols : nat) (t : table) (gq : gquery) (o : qout)
+| GSame (gq : gquery) (o : qout).
 
 Inductive obs := ORows (rows : list row) | OErr | OPanic.
 Definition obs_of (ncols : nat) (t : table) (q : query) (o : qout) : obs :=
@@ -60,19 +64,43 @@ Definition spec_ok1 (ncols : nat) (t : table) (q : query) (o : obs) : bool :=
       else true
   end.
 
+(* ORDER BY over GROUP BY *)
+Definition gobs_of (o : qout) : obs :=
+  match o with QRows rows => ORows rows | QPanic => OPanic | _ => OErr end.
+Definition model_agrees_g (ncols : nat) (t : table) (gq : gquery) (o : obs) : bool :=
+  match model_group ncols gq t, o with
+  | MRows rows, ORows rows' => rows_eqb rows rows'
+  | _, _ => false
+  end.
+Definition spec_ok_g (ncols : nat) (t : table) (gq : gquery) (o : obs) : bool :=
+  let B := g_elts gq t in
+  if g_well_formed ncols gq && result_defined (g_dirs gq) false B then
+    match o with
+    | ORows rows => result_chk (g_dirs gq) false B (g_off gq) (g_lim gq) rows
+    | _ => false
+    end
+  else true.
+
 (* the table a case refers to, given the one in force before it *)
 Definition case_ctx (ctx : nat * table) (c : case) : nat * table :=
-  match c with Single ncols t _ _ => (ncols, t) | Same _ _ => ctx end.
-Definition case_q (c : case) : query := match c with Single _ _ q _ => q | Same q _ => q end.
-Definition case_o (c : case) : qout := match c with Single _ _ _ o => o | Same _ o => o end.
+  match c with Single ncols t _ _ | Group ncols t _ _ => (ncols, t) | Same _ _ | GSame _ _ => ctx end.
 
-Definition model_agrees_in (ctx : nat * table) (c : case) : bool :=
-  let (ncols, t) := case_ctx ctx c in model_agrees1 ncols t (case_q c) (obs_of ncols t (case_q c) (case_o c)).
-Definition spec_ok_in (ctx : nat * table) (c : case) : bool :=
-  let (ncols, t) := case_ctx ctx c in spec_ok1 ncols t (case_q c) (obs_of ncols t (case_q c) (case_o c)).
+(* (model_agrees, spec_ok, known_class) of a case in a context *)
+Definition judge (ctx : nat * table) (c : case) : bool * bool * Z :=
+  let (ncols, t) := case_ctx ctx c in
+  match c with
+  | Single _ _ q o | Same q o =>
+      let ob := obs_of ncols t q o in
+      (model_agrees1 ncols t q ob, spec_ok1 ncols t q ob, known_class_case ncols q t)
+  | Group _ _ gq o | GSame gq o =>
+      let ob := gobs_of o in
+      (model_agrees_g ncols t gq ob, spec_ok_g ncols t gq ob, 0)
+  end.
+
+Definition model_agrees_in (ctx : nat * table) (c : case) : bool := fst (fst (judge ctx c)).
+Definition spec_ok_in (ctx : nat * table) (c : case) : bool := snd (fst (judge ctx c)).
 (* the recorded finding class of the case (Model/SortImpl.v known_class_case); 0 = none *)
-Definition known_class_in (ctx : nat * table) (c : case) : Z :=
-  known_class_case (fst (case_ctx ctx c)) (case_q c) (snd (case_ctx ctx c)).
+Definition known_class_in (ctx : nat * table) (c : case) : Z := snd (judge ctx c).
 
 (* a case standing alone (Same without a table: an empty table of no columns) *)
 Definition model_agrees (c : case) : bool := model_agrees_in (O, []) c.
@@ -83,10 +111,9 @@ Fixpoint failures_from (i : Z) (ctx : nat * table) (cs : list case) : list (Z * 
   match cs with
   | [] => []
   | c :: rest =>
-      let m := model_agrees_in ctx c in
-      let s := spec_ok_in ctx c in
+      let '(m, s, k) := judge ctx c in
       let ctx' := case_ctx ctx c in
       if m && s then failures_from (i + 1) ctx' rest
-      else (i, m, s, known_class_in ctx c) :: failures_from (i + 1) ctx' rest
+      else (i, m, s, k) :: failures_from (i + 1) ctx' rest
   end.
 Definition failures := failures_from 0 (O, []).
